@@ -8,6 +8,7 @@ import (
 	"bytes"
 	"context"
 	"fmt"
+	"net"
 	"net/http"
 	"strings"
 	"testing"
@@ -150,6 +151,23 @@ func httpEngineGoroutine(desc string) bool {
 }
 
 func runHTTPStop(t *testing.T, ci interface{}, trace bool) *common.Outcome {
+	return runHTTPStopAs(t, ci, trace, "C18")
+}
+
+// runHTTPStopForJobs judges the same scenario for C05's consequence "HTTP handlers and
+// WebSocket callbacks of one connection never overlap, and close handling runs after all work
+// queued before it": here the close handling is the one a stopping engine triggers while
+// handlers are in flight.
+func runHTTPStopForJobs(t *testing.T, ci interface{}, trace bool) *common.Outcome {
+	o := runHTTPStopAs(t, ci, trace, "C05")
+	if o.V != nil && o.V.Oracle != "close-handling-overlaps-handler" {
+		o.Probe("other_property_oracle_fired:C18:" + o.V.Oracle)
+		o.V = nil
+	}
+	return o
+}
+
+func runHTTPStopAs(t *testing.T, ci interface{}, trace bool, prop string) *common.Outcome {
 	c := ci.(*HTTPStopCase)
 	o := &common.Outcome{}
 	var logs []string
@@ -170,11 +188,40 @@ func runHTTPStop(t *testing.T, ci interface{}, trace bool) *common.Outcome {
 		}
 		u := websocket.NewUpgrader()
 		u.KeepaliveTime = time.Hour
-		u.OnMessage(func(wc *websocket.Conn, mt websocket.MessageType, data []byte) { wc.WriteMessage(mt, data) })
 		inHandler := 0
+		running := map[string]int{} // handlers / message callbacks in progress, by peer address
+		// Connections that are transferred to the poller during the upgrade are left out: the
+		// blocking reader reports its end (engine close hook) right after the hand-over while
+		// the new nbio.Conn already serves messages, and with ET+ONESHOT their callbacks bypass
+		// the job queue - both are hand-over matters filed under C14 (S11a/S11b, S41).
+		transferred := map[string]bool{}
+		overlap := func(what string, addr string) {
+			if running[addr] > 0 && !transferred[addr] {
+				if prop == "C05" {
+					fail("close-handling-overlaps-handler", class, "the %s of connection %s ran while a handler / message callback of the same connection was still running", what, addr)
+				} else {
+					o.Probe("other_property_oracle_fired:C05:close-handling-overlaps-handler")
+				}
+			}
+		}
+		u.OnMessage(func(wc *websocket.Conn, mt websocket.MessageType, data []byte) {
+			addr := wc.RemoteAddr().String()
+			running[addr]++
+			simrt.Sleep(50 * time.Microsecond)
+			wc.WriteMessage(mt, data)
+			running[addr]--
+		})
+		u.OnClose(func(wc *websocket.Conn, err error) { overlap("websocket close callback", wc.RemoteAddr().String()) })
 		handler := http.HandlerFunc(func(w http.ResponseWriter, r *http.Request) {
 			inHandler++
-			defer func() { inHandler-- }()
+			running[r.RemoteAddr]++
+			counted := true
+			defer func() {
+				inHandler--
+				if counted {
+					running[r.RemoteAddr]--
+				}
+			}()
 			var ci int
 			fmt.Sscanf(r.Header.Get("X-Conn"), "%d", &ci)
 			if ci < 0 || ci >= len(c.Conns) {
@@ -183,7 +230,13 @@ func runHTTPStop(t *testing.T, ci interface{}, trace bool) *common.Outcome {
 			p := c.Conns[ci]
 			switch p.Kind {
 			case "ws", "wsmsg":
+				// The upgrade hands the connection to the websocket layer (after a transfer: to
+				// another nbio.Conn with a job queue of its own). How that hand-over is ordered
+				// against the upgrading handler is C14's business (S11a/S11b), not this oracle's.
+				running[r.RemoteAddr]--
+				counted = false
 				if p.Transfer && c.IOMod != "nonblocking" {
+					transferred[r.RemoteAddr] = true
 					u.UpgradeAndTransferConnToPoller(w, r, nil)
 				} else {
 					u.Upgrade(w, r, nil)
@@ -198,6 +251,11 @@ func runHTTPStop(t *testing.T, ci interface{}, trace bool) *common.Outcome {
 		tlsOn = c.TLS
 		eng := newEngine(c.IOMod, c.Mode, c.NPoller, c.Pool, c.MaxBlocking, handler)
 		tlsOn = false
+		eng.OnClose(func(nc net.Conn, err error) {
+			if ra := nc.RemoteAddr(); ra != nil {
+				overlap("engine's close handling", ra.String())
+			}
+		})
 		u.Engine = eng
 		if err := eng.Start(); err != nil {
 			o.Infra = "engine start: " + err.Error()
